@@ -13,7 +13,7 @@ use espada::evaluator::MadeHand;
 use espada::hand_range::{CardPair, HandRange};
 use std::sync::atomic::{AtomicBool, AtomicUsize, Ordering};
 
-fn probe(what: &str, thread: usize) -> Vec<String> {
+fn probe(what: &str, thread: usize, names: &[String]) -> Vec<String> {
     let mut problems: Vec<String> = Vec::new();
     let mut rng = Rng::new(0xF1857 + thread as u64);
     match what {
@@ -72,7 +72,7 @@ fn probe(what: &str, thread: usize) -> Vec<String> {
                         let m = MadeHand::from(cards);
                         (m.power_index(), format!("{:?}", m.hand_type()))
                     }) {
-                        Ok((idx, name)) if idx == table.class_of(key) && name == category_name(key) => {}
+                        Ok((idx, name)) if idx == table.class_of(key) && (name == category_name(key) || names.get(crate::refmodel::ranker::category(key)).map(|n| *n == name).unwrap_or(false)) => {}
                         other => problems.push(format!("{} evaluates to {:?}, expected class {} ({})", cards_text(&order), other, table.class_of(key), category_name(key))),
                     }
                 }
@@ -96,7 +96,7 @@ fn probe(what: &str, thread: usize) -> Vec<String> {
 }
 
 /// Runs inside the fresh child process.
-pub fn child_body(what: &str) -> Report {
+pub fn child_body(what: &str, names: &[String]) -> Report {
     let mut report = Report::new();
     let threads = 16usize;
     let ready = AtomicUsize::new(0);
@@ -110,7 +110,7 @@ pub fn child_body(what: &str) -> Report {
                 while !go.load(Ordering::Acquire) {
                     std::hint::spin_loop();
                 }
-                probe(what, t)
+                probe(what, t, names)
             }));
         }
         while ready.load(Ordering::SeqCst) < threads {
@@ -134,11 +134,16 @@ pub fn child_body(what: &str) -> Report {
 
 /// Parent side: `children` fresh processes.
 pub fn run_children(ctx: &Ctx, what: &str, children: usize, report: &mut Report) {
+    run_children_with(ctx, what, children, &[], report)
+}
+
+/// `names`: the category names this build uses (observed by the parent), so that a renamed variant is no alarm.
+pub fn run_children_with(ctx: &Ctx, what: &str, children: usize, names: &[String], report: &mut Report) {
     let exe = match std::env::current_exe() {
         Ok(e) => e,
         Err(_) => return,
     };
-    let case = Json::obj().set("kind", Json::str("first-use")).set("what", Json::str(what));
+    let case = Json::obj().set("kind", Json::str("first-use")).set("what", Json::str(what)).set("names", Json::strs(names.iter().cloned()));
     for _ in 0..children {
         report.evaluations += 1;
         report.count("first_use_race_processes", 1);
